@@ -1,6 +1,6 @@
 (** C19 — Template providers: layered definitions, isolated views, cache-transparent.
-    This file contains only statements; every proof is [exact <lemma of Proofs/Tmpl.v>] (or a
-    computation for the witnesses).
+    This file contains only statements; every proof is [exact <lemma of Proofs/Tmpl.v or
+    Proofs/C19More.v>] (or a computation for the witnesses).
 
     Reading guide (Model/Tmpl.v): [fl : flavour] selects html/text provider and pre/post-fix
     variants; [good fl] = "an html provider hands out clones of its cached base/layout and the
@@ -10,7 +10,7 @@
     [dir_defs files] = the definitions of one directory's files in walk order.  There is no
     restriction on layout or view names any more (the key collision was repaired in 7035bfe;
     [C19_keycollision_refuted] is the witness for the old key). *)
-From GC Require Import Common.Base Model.Tmpl Proofs.Tmpl.
+From GC Require Import Common.Base Model.Tmpl Model.TmplOpen Proofs.Tmpl Proofs.C19More.
 
 (** Master statement: whatever was requested before (including callers executing what they got),
     caching on or off, html or text: the answers are exactly the specified ones — each Base /
@@ -319,3 +319,220 @@ Example ex_writer_pref :
   map (fun t => is_some (cstep html_now true fsW s t)) [0;1;2]%nat = [false; true; true] /\
   map (fun t => is_some (cstep_wp (fun _ => true) html_now true fsW s t)) [0;1;2]%nat = [false; true; false].
 Proof. vm_compute. repeat split; reflexivity. Qed.
+
+(* ------------------------------------------------------------------------------------------ *)
+(** The provider as an open system (proof audit; Model/TmplOpen.v, Proofs/C19More.v).
+
+    The concurrent theorems above speak of a fixed set of goroutines, one request each, on a fresh
+    provider, and nobody executes a template while another goroutine is still building - the
+    situation of F29 (an executed html template can not be cloned) is covered for one caller only
+    ([C19_answers_spec]).  The property says: used by many goroutines from its first use on.
+    [xrun fl c fs acts xinit] is the state after ANY finite sequence [acts] of
+      [XSpawn q] a goroutine calls the provider (at any time: a goroutine that asks again is a new
+                 thread from that moment on, so request sequences per goroutine are covered),
+      [XStep t]  thread t takes its next step of the locking protocol (skipped when blocked),
+      [XExec t]  the caller of thread t executes the template it got,
+    over the same step functions ([cstep], [set_exec]) as above.  The theorems hold for every such
+    sequence: all interleavings, all arrival orders, all renderings in between. *)
+
+(** The closed scenario is an instance: everybody calls first, nobody executes. *)
+Theorem C19_open_generalises : forall fl c fs qs sched,
+  crun fl c fs sched (cinit fl qs) = xrun fl c fs (map XSpawn qs ++ map XStep sched) xinit.
+Proof. exact crun_is_xrun. Qed.
+Print Assumptions C19_open_generalises.
+
+(** Every thread that has returned serves its own call (the t-th call made) and holds exactly
+    the specified answer.  Supersedes [C19_concurrent_answers] and, together with
+    [C19_open_fair_answers], [C19_can_finish]. *)
+Theorem C19_open_answers : forall fl c fs acts t q r,
+  good fl ->
+  nth_error (cthr (xrun fl c fs acts xinit)) t = Some (TDone q r) ->
+  nth_error (spawned acts) t = Some q /\ obs_of (cp (xrun fl c fs acts xinit)) r = creq_spec fs q.
+Proof. exact open_answers. Qed.
+Print Assumptions C19_open_answers.
+
+(** All callers of one request hold equal templates, whenever they asked (supersedes
+    [C19_concurrent_equal]; with two calls of one goroutine it is the clause about asking twice). *)
+Theorem C19_open_equal : forall fl c fs acts t1 t2 q r1 r2,
+  good fl ->
+  let s := xrun fl c fs acts xinit in
+  nth_error (cthr s) t1 = Some (TDone q r1) -> nth_error (cthr s) t2 = Some (TDone q r2) ->
+  obs_of (cp s) r1 = obs_of (cp s) r2.
+Proof. exact open_equal. Qed.
+Print Assumptions C19_open_equal.
+
+(** Isolation and cache transparency in one statement: the answer to a request depends on the
+    template files of the directories the request names (helpers, its layout, its view) and on
+    nothing else - not on any other view or layout directory, not on files without the extension,
+    not on html/text, not on caching, not on who asked before, not on the schedule. *)
+Theorem C19_open_named_dirs : forall fl fl' c c' fs fs' acts acts' t t' q r r',
+  good fl -> good fl' -> same_dirs fs fs' q ->
+  let s := xrun fl c fs acts xinit in
+  let s' := xrun fl' c' fs' acts' xinit in
+  nth_error (cthr s) t = Some (TDone q r) -> nth_error (cthr s') t' = Some (TDone q r') ->
+  obs_of (cp s) r = obs_of (cp s') r'.
+Proof. exact open_named_dirs. Qed.
+Print Assumptions C19_open_named_dirs.
+
+(** The same for the request histories of one caller ([run_obs] is what the correspondence check
+    evaluates): two file sets that agree on the directories named in the history give the same
+    answers, in every pair of configurations.  Generalises [C19_cache_transparent] and
+    [C19_providers_agree] (take fs' = fs) and the isolation clause: the files of view v1 can be
+    changed at will without changing any answer about the base, a layout or another view. *)
+Theorem C19_named_dirs : forall fl fl' c c' fs fs' qs,
+  good fl -> good fl' -> (forall q, In q qs -> same_dirs_req fs fs' q) ->
+  run_obs fl c fs qs = run_obs fl' c' fs' qs.
+Proof. exact seq_named_dirs. Qed.
+Print Assumptions C19_named_dirs.
+
+(** No call crashes: no thread ever carries a panic (the model panics where the code would
+    dereference a template it does not have), and no answer of a request history is one. *)
+Theorem C19_open_no_panic : forall fl c fs acts t th,
+  good fl -> nth_error (cthr (xrun fl c fs acts xinit)) t = Some th -> thread_panics th = false.
+Proof. exact open_no_panic. Qed.
+Print Assumptions C19_open_no_panic.
+
+Theorem C19_no_panic : forall fl c fs qs, good fl -> ~ In OPanic (run_obs fl c fs qs).
+Proof. exact seq_no_panic. Qed.
+Print Assumptions C19_no_panic.
+
+(** No data race on the caches (supersedes [C19_race_free]). *)
+Theorem C19_open_race_free : forall fl c fs acts,
+  locked_fast fl = true -> raceb (xrun fl c fs acts xinit) = false.
+Proof. exact open_race_free. Qed.
+Print Assumptions C19_open_race_free.
+
+(** No deadlock, also under writer preference with any set of waiting writers (supersedes
+    [C19_no_deadlock(_writer_pref)]), and no lock upgrade. *)
+Theorem C19_open_no_deadlock : forall pend fl c fs acts,
+  let s := xrun fl c fs acts xinit in
+  (forall t, cstep_wp pend fl c fs s t = None) -> all_done s = true.
+Proof. exact open_no_deadlock. Qed.
+Print Assumptions C19_open_no_deadlock.
+
+Theorem C19_open_no_lock_upgrade : forall fl c fs acts t th lk,
+  nth_error (cthr (xrun fl c fs acts xinit)) t = Some th ->
+  next_act th = ARLock lk \/ next_act th = ALock lk ->
+  holdsW lk th = false /\ holdsR lk th = false.
+Proof. exact open_no_upgrade. Qed.
+Print Assumptions C19_open_no_lock_upgrade.
+
+(** Termination under bounded fairness.  From any reachable state with n threads: EVERY
+    continuation made of at least 22 * n blocks, in each of which nobody new calls and every
+    thread gets at least one turn ([fair_block]; turns of blocked threads are skipped, callers
+    may execute at any point), ends with every thread returned.  [C19_can_finish] gave the
+    existence of one such continuation only. *)
+Theorem C19_open_fair_terminates : forall fl c fs acts blocks,
+  let s := xrun fl c fs acts xinit in
+  forallb (fair_block (length (cthr s))) blocks = true ->
+  (22 * length (cthr s) <= length blocks)%nat ->
+  all_done (xrun fl c fs (concat blocks) s) = true.
+Proof. exact open_fair_terminates. Qed.
+Print Assumptions C19_open_fair_terminates.
+
+(** ... and then every call made has returned the specified answer. *)
+Theorem C19_open_fair_answers : forall fl c fs acts blocks,
+  good fl ->
+  let s := xrun fl c fs acts xinit in
+  forallb (fair_block (length (cthr s))) blocks = true ->
+  (22 * length (cthr s) <= length blocks)%nat ->
+  let s' := xrun fl c fs (concat blocks) s in
+  all_done s' = true /\
+  forall t q, nth_error (spawned acts) t = Some q ->
+    exists r, nth_error (cthr s') t = Some (TDone q r) /\ obs_of (cp s') r = creq_spec fs q.
+Proof. exact open_fair_answers. Qed.
+Print Assumptions C19_open_fair_answers.
+
+(** Non-vacuity and regression witness.  [actsA]: goroutine 0 asks for the default layout,
+    goroutine 1 for view v; 1 is pre-empted in front of Lock(views); 0 runs to the end and its
+    caller EXECUTES what it got; 1 goes on and reads the cached layout - it now carries the
+    cached layout object from the layouts level to the views level while 0's template is an
+    executed one. *)
+Definition actsA : list xact :=
+  [XSpawn (CLayout []); XSpawn (CView [] [118])] ++ map XStep (repeat 1 3 ++ repeat 0 15)%nat
+  ++ [XExec 0%nat] ++ map XStep (repeat 1%nat 5).
+(** ... then 0 executes again, goroutine 2 asks for the layout and executes it, 1 finishes and
+    executes, 3 gets the cached view and executes it, 4 asks for the base, 5 for view w. *)
+Definition actsB : list xact :=
+  [XExec 0; XSpawn (CLayout [])]%nat ++ map XStep (repeat 2 15)%nat ++ [XExec 2%nat] ++ map XStep (repeat 1 2)%nat
+  ++ [XExec 1%nat; XSpawn (CView [] [118])] ++ map XStep (repeat 3 3)%nat ++ [XExec 3%nat; XSpawn CBase]
+  ++ map XStep (repeat 4 4)%nat ++ [XSpawn (CView DEFAULT [119])]
+  ++ map XStep (repeat 5 4 ++ repeat 4 5 ++ repeat 5 20)%nat ++ [XExec 4; XExec 5]%nat.
+
+Example ex_open_mid :
+  let s := xrun html_now true fsW actsA xinit in
+  map thread_ref (cthr s) = [Some (KV, 2); Some (KL, 1)]%nat /\
+  map o_exec (heap (cp s)) = [false; false; true] /\
+  c_lay (cp s) = [(DEFAULT, 1%nat)] /\ all_done s = false.
+Proof. vm_compute. repeat split; reflexivity. Qed.
+
+Example ex_open_run :
+  let s := xrun html_now true fsW (actsA ++ actsB) xinit in
+  all_done s = true /\ answers s = map (creq_spec fsW) (spawned (actsA ++ actsB)) /\
+  map o_exec (heap (cp s)) = [false; false; true; true; true; true; true] /\
+  existsb thread_panics (cthr s) = false /\
+  (forall t, In t (seq 0 7) -> cstep_wp (fun _ => true) html_now true fsW s t = None).
+Proof.
+  vm_compute. repeat split; try reflexivity.
+  intros t H. repeat (destruct H as [<-|H]; [reflexivity|]). destruct H.
+Qed.
+
+(** The flavour before 66989e3 in the same interleaving: goroutine 0 got the cached layout
+    itself, its caller executed it, and goroutine 1 - in the middle of building its view - fails
+    although the file set is fine.  With the current flavour it gets the specified view. *)
+Theorem C19_open_F29_refuted :
+  let acts := actsA ++ map XStep (repeat 1%nat 2) in
+  nth_error (cthr (xrun html_F29 true fsW acts xinit)) 1 = Some (TDone (CView [] [118]) Err) /\
+  creq_spec fsW (CView [] [118]) = OTmpl [([120], 4%N); ([97], 3%N); ([98], 2%N); ([97], 1%N)] /\
+  nth_error (answers (xrun html_now true fsW acts xinit)) 1 = Some (creq_spec fsW (CView [] [118])).
+Proof. vm_compute. repeat split; reflexivity. Qed.
+Print Assumptions C19_open_F29_refuted.
+
+(** bounded fairness: from the state of [ex_open_mid] (2 threads), 44 blocks that each give
+    thread 1 a turn, let the caller of 0 execute again, and give thread 0 a (skipped) turn; and
+    six goroutines that call at once followed by 132 round-robin rounds, in all four
+    configurations *)
+Example ex_fair_mid :
+  let s := xrun html_now true fsW actsA xinit in
+  let blocks := repeat [XStep 1; XExec 0; XStep 0]%nat 44 in
+  forallb (fair_block (length (cthr s))) blocks = true /\ (22 * length (cthr s) <= length blocks)%nat /\
+  all_done (xrun html_now true fsW (concat blocks) s) = true.
+Proof. split; [vm_compute; reflexivity|split; [vm_compute; apply le_n|vm_compute; reflexivity]]. Qed.
+
+Definition qs6 : list creq := [CView [] [118]; CLayout []; CView [] [118]; CBase; CView DEFAULT [119]; CView [] []].
+Example ex_fair_rr :
+  let acts := map XSpawn qs6 in
+  let blocks := repeat (map XStep (seq 0 6)) 132 in
+  forallb (fun flc : flavour * bool =>
+    let s := xrun (fst flc) (snd flc) fsW acts xinit in
+    let s' := xrun (fst flc) (snd flc) fsW (concat blocks) s in
+    forallb (fair_block (length (cthr s))) blocks && Nat.leb (22 * length (cthr s)) (length blocks)
+    && all_done s' && Nat.eqb (length (answers s')) 6
+    && forallb (fun o => match o with OPanic => false | _ => true end) (answers s'))
+    [(html_now, true); (html_now, false); (text_now, true); (text_now, false)] = true /\
+  answers (xrun html_now true fsW (acts ++ concat blocks) xinit) = map (creq_spec fsW) qs6.
+Proof. vm_compute. split; reflexivity. Qed.
+
+(** named directories: [fsW2] differs from [fsW] in the files of view w, has one more view and
+    one more layout, and a file without the extension among the helpers; every request that does
+    not name w or the new directories is answered as on [fsW] *)
+Definition fsW2 : tfs :=
+  {| f_ext := [46;116];
+     f_helpers := Some [NFile [104;46;116] (Some [([97], 1%N)]); NFile [122;46;116;120] None];
+     f_layouts := [(DEFAULT, [NFile [108;46;116] (Some [([98], 2%N)])]);
+                   ([109], [NFile [109;46;116] (Some [([120], 7%N)])])];
+     f_views := [([118], [NFile [118;46;116] (Some [([97], 3%N); ([120], 4%N)])]);
+                 ([119], [NFile [119;46;116] (Some [([120], 8%N); ([97], 6%N)])]);
+                 ([121], [NFile [121;46;116] None])] |}.
+Example ex_same_dirs :
+  same_dirs fsW fsW2 (CView [] [118]) /\ same_dirs fsW fsW2 (CLayout []) /\ same_dirs fsW fsW2 CBase /\
+  view_files fsW [119] <> view_files fsW2 [119] /\
+  (forall q, In q [RLayout []; RView [] [118]; RExec 1%nat; RBase; RView DEFAULT [118]] -> same_dirs_req fsW fsW2 q) /\
+  run_obs html_now true fsW [RView [] [119]] <> run_obs html_now true fsW2 [RView [] [119]].
+Proof.
+  repeat split; try (vm_compute; reflexivity); try (vm_compute; discriminate).
+  intros q H. repeat (destruct H as [<-|H]; [vm_compute; auto|]). destruct H.
+Qed.
+
+Example ex_locked_fast : locked_fast html_now = true /\ locked_fast text_now = true.
+Proof. split; reflexivity. Qed.
